@@ -291,7 +291,10 @@ def request_for(case):
         ext["http.response.zerocopysend"] = {}
     for name in rq.get("extensions", ()):  # what servers offer besides (or instead of) zero-copy send
         ext[name] = {}
-    return gw.areq(method=rq.get("method", "GET"), path="/r", headers=headers, extensions=ext or None)
+    out = gw.areq(method=rq.get("method", "GET"), path="/r", headers=headers, extensions=ext or None)
+    if rq.get("protocol"):
+        out["protocol"] = rq["protocol"]  # SERVER_PROTOCOL of the environ / http_version of the scope
+    return out
 
 
 def wsgi_run(case, recipe, close_after=None):
@@ -624,6 +627,7 @@ SUBS = {
     "sizes": oracle_sizes,
     "responses": oracle,
     "wrapped": oracle,
+    "protocols": oracle,
     "statuses": oracle_status,
     "filegrid": oracle,
     "sse_idle": oracle,
@@ -773,6 +777,27 @@ def wrapped_cases():
                 yield {"response": {"kind": "raw", "raw": raw, "wrap": wrap}, "request": {"method": "GET"}}
 
 
+def protocol_cases():
+    """The protocol version of the request (HTTP/1.0 has no chunked coding, HTTP/2 no Connection header at all) is the server's
+    business: whatever it is, the application must not start emitting hop-by-hop headers or change the shape of its answer."""
+    recipes_ = [
+        {"kind": "plain", "content": "hello"}, {"kind": "empty", "status": 204}, {"kind": "json", "content": [1, 2]},
+        {"kind": "stream", "chunks": [b"a", b"bc"]}, {"kind": "stream", "chunks": []}, {"kind": "sse", "events": [{"data": "x"}]},
+        {"kind": "file", "name": "f.txt", "size": 5, "chunk": 3}, {"kind": "redirect", "url": "/n"},
+        {"kind": "stream", "chunks": [b"a", b"b"], "wrap": ["identity"]}, {"kind": "plain", "content": "x", "wrap": ["identity"]},
+        {"kind": "stream", "chunks": [b"a", b"b"], "raise_at": 1},
+    ]
+    for protocol in ("HTTP/1.0", "HTTP/0.9", "HTTP/2", "HTTP/3", "HTTP/1.1"):
+        for recipe in recipes_:
+            for method in ("GET", "HEAD"):
+                rq = {"method": method, "protocol": protocol}
+                if recipe["kind"] == "file" and method == "GET":
+                    for rng in (None, "bytes=0-1", "bytes=0-0,2-3"):
+                        yield {"response": dict(recipe), "request": dict(rq, range=rng)}
+                else:
+                    yield {"response": dict(recipe), "request": rq}
+
+
 def sse_idle_cases():
     """Event streams whose producer stays silent for several ping intervals (before the first event, between
     events, before the end): the keep-alive pings are body items like any other."""
@@ -886,6 +911,8 @@ def run(rec, only=None):
     rec.exhaustive["statuses"] = not quick
     core.drive_cases(rec, "filegrid", file_grid(quick), oracle)
     rec.exhaustive["filegrid"] = True
+    core.drive_cases(rec, "protocols", protocol_cases(), oracle)
+    rec.exhaustive["protocols"] = True
     core.drive_cases(rec, "wrapped", wrapped_cases(), oracle)
     rec.exhaustive["wrapped"] = True
     core.drive_cases(rec, "sse_idle", sse_idle_cases(), oracle)
